@@ -17,7 +17,7 @@ CHECKS = {
     "C03": {
         "spec": "specs/Runtime.tla + RuntimeTrace.tla",
         "text": 'Same specification and pipeline as C01 for AtMostOnce, AdoptReturnsNone, ExactlyOnce (liveness on the model, observed at quiescence), RightFlavour and ArgsExact: flavour assignments of three payloads with argument tuples/dicts, one queued before start and two adopted afterwards from a thread or from inside payloads of each flavour, 0..2 services (one falsy) created before/after start from any context, optional racing shutdown; targeted scripts adopt every flavour while the runtime is closing (several delays) and let several threads queue the first pre-start payloads at the same instant.',
-        "note": "as C01; callers wait for `running` before adopting (a submission overlapping accept()'s own start-up is outside the claim, DESIGN 7.4); thread/loop identity and argument equality are recorded by the payloads.",
+        "note": "as C01; callers wait for `running` before adopting (a submission overlapping accept()'s own start-up is outside the claim, DESIGN 7.4); thread/loop identity and argument equality are recorded by the payloads. The registration / closing / stopping kernels (Registration.tla, Closing.tla, Stopping.tla) are model-checked for two or three submitters, bound to the code by forced schedules, and their safety invariants are additionally proved with TLAPS for any number of submitters (specs/proofs, reported in the evidence; a proof run that times out is reported, not fatal).",
         "design": "5/C03, 4.1",
         "technique": 'TLA+ model checking (TLC, safety + liveness) of the runtime protocol + TLC-simulated behaviours forced onto the real runtime + trace validation',
     },
